@@ -220,7 +220,7 @@ def process_config(args):
     mod = importlib.import_module(modname)
     res = dict(
         key=cfg["key"], h=cfg["h"], paths=0, infeasible=0, forks=0, max_depth=0, obligations=0, trivial=0,
-        by_simplify=0, by_solver=0, nl=0, queries=0, t_solver=0.0, nontrivial_paths=0, violations=[],
+        by_simplify=0, by_solver=0, nl=0, queries=0, t_solver=0.0, nontrivial_paths=0, solver_paths=0, structural=0, violations=[],
         unknown=[], error=None, inconclusive=None, sample=None, funcs=[], stubs=[], shadow=None,
     )
     timeout_ms = opts.get("timeout_ms", 10000)
@@ -286,7 +286,10 @@ def process_config(args):
                     res["nl"] += pr.nl
                     res["queries"] += pr.queries + c.nq
                     res["t_solver"] += pr.t_solver + c.t_solver
+                    res["structural"] += w.n_struct
                     if pr.by_solver or pr.failed:
+                        res["solver_paths"] += 1
+                    if pr.by_solver or pr.failed or pr.by_simplify or w.n_struct:
                         res["nontrivial_paths"] += 1
                     if pr.sample and res["sample"] is None:
                         res["sample"] = dict(config=cfg["key"], obligation=pr.sample[0], negated_goal_unsat=pr.sample[1],
@@ -437,7 +440,7 @@ def main(argv=None):
 def report(mod, prop, tier, seed, results, wall, verbose=False):
     known = load_known()
     agg = dict(configs=len(results), paths=0, infeasible=0, forks=0, max_depth=0, obligations=0, trivial=0, by_simplify=0,
-               by_solver=0, nl=0, queries=0, t_solver=0.0, nontrivial=0)
+               by_solver=0, nl=0, queries=0, t_solver=0.0, nontrivial=0, structural=0, solver_paths=0)
     funcs, stubs = set(), set()
     samples = []
     inconclusive, errors, unknowns = [], [], []
@@ -445,7 +448,7 @@ def report(mod, prop, tier, seed, results, wall, verbose=False):
     shadow_runs = shadow_bad = 0
     per_h = {}
     for r in results:
-        for k in ("paths", "infeasible", "forks", "obligations", "trivial", "by_simplify", "by_solver", "nl", "queries", "t_solver"):
+        for k in ("paths", "infeasible", "forks", "obligations", "trivial", "by_simplify", "by_solver", "nl", "queries", "t_solver", "structural", "solver_paths"):
             agg[k] += r[k]
         agg["max_depth"] = max(agg["max_depth"], r["max_depth"])
         agg["nontrivial"] += r["nontrivial_paths"]
@@ -542,10 +545,14 @@ def report(mod, prop, tier, seed, results, wall, verbose=False):
             evaluations=agg["obligations"],
             distinct_nontrivial=agg["nontrivial"],
             rule="one evaluation = one obligation decided on one (configuration, path); non-trivial = distinct (configuration, path) "
-                 "pairs with at least one obligation that needed a solver query (not closed by syntactic identity or the simplifier)",
+                 "pairs with at least one obligation relating symbolic terms (closed by structural identity of the two z3 terms, by z3's "
+                 "simplifier or by a solver query); paths whose obligations all needed only Python-level checks are not counted; "
+                 "solver_decided_paths counts the pairs that needed at least one solver query",
+            solver_decided_paths=agg["solver_paths"],
             obligations=agg["obligations"],
             discharged=agg["trivial"] + agg["by_simplify"] + agg["by_solver"],
-            discharged_by=dict(python_true=agg["trivial"], z3_simplifier=agg["by_simplify"], z3_solver_unsat=agg["by_solver"]),
+            discharged_by=dict(python_level_check=agg["trivial"] - agg["structural"], identical_z3_term=agg["structural"],
+                               z3_simplifier=agg["by_simplify"], z3_solver_unsat=agg["by_solver"]),
             nonlinear_queries=agg["nl"],
             sat_replayed=sum(len(v) for v in known_hits.values()) + len(new_violations),
             non_reproducing=len(nonrepro),
